@@ -19,7 +19,9 @@ RULE = (
     "1/4 grid or arbitrary floats, invalid pixels carrying NaN or -9999 with an invalid bit, information bits 2/3, "
     "pre-flagged borders when the window offset > 0, thresholds {0,1e-3,0.25,0.5,1,1.5,2}, integer intervals of either "
     "sign). A case is non-trivial when the judged (previously valid) pixels contain at least one consistent pixel, "
-    "one pixel the reference calls mismatch and one it calls occlusion; distinct = distinct canonical payload."
+    "one pixel the reference calls mismatch and one it calls occlusion; distinct = distinct canonical payload. "
+    "Pipeline twin: generated pairs and legal pipelines with 1-3 validation steps (no filling); the datasets handed to each "
+    "validation step are captured and judged by the same oracle, on the left and on the right side."
 )
 ASSUMPTIONS = [
     "valid pixels carry finite disparities (what winner-takes-all / refinement / filters deliver)",
